@@ -266,3 +266,184 @@ Example C13_witness :
   /\ wit_check (smap (fun n z => QLemmas.gq_mul (cpow wit_c n) z) main_wit_sols) = true
   /\ wit_check (skey (fun n => match n with cons a (cons b nil) => cons b (cons a nil) | _ => n end) main_wit_sols) = true.
 Proof. exact (Logic.conj wit_base (Logic.conj wit_scale wit_swap)). Qed.
+
+(** * Non-Hermitian mode (hermitian=False, program [nonhermitian_alg])
+
+    The same relations for ANY solutions [sol], [sol'] of the generated non-Hermitian program.  They
+    are named _partial because of ONE extra hypothesis, needed on both sides: kept matrix elements
+    connect equal unperturbed energies ([kept_equal]; for the re-parametrisations the two sides share
+    the mask and the energies, so it is stated once).  Outside this class the non-Hermitian program
+    does not satisfy its own defining conditions (known finding C05-kept-distinct-energies), so
+    uniqueness cannot be applied; the oracle tests the relations there as well.  Not assumed: real
+    energies, Hermitian input, real scalars.  [U†] names the third output (U_inv). *)
+From PV.Alg Require Import UniqueNH NonHerm.
+From PV.Series Require Import SymNH SymNHInst.
+
+(** scaling by arbitrary (complex) scalars c_1 .. c_k *)
+Theorem C13_scale_nh_partial :
+  forall (D k : nat) (R0 : Type) (r0 r1 : R0) (add mul sub : R0 -> R0 -> R0) (opp : R0 -> R0) (req : R0 -> R0 -> Prop)
+         (Ro : @Ring_ops R0 r0 r1 add mul sub opp req) (Rg : @Ring R0 r0 r1 add mul sub opp req Ro) (CS : CStar R0)
+         (blk : nat -> nat) (keep : nat -> nat -> bool) (cm : nat -> bool)
+         (keep_sym : forall p q, keep p q = keep q p) (keep_refl : forall p, keep p p = true)
+         (keep_blk : forall p q, keep p q = true -> blk p = blk q) (cm_blk : forall p q, blk p = blk q -> cm p = cm q)
+         (E : nat -> R0) (inv : R0 -> R0)
+         (inv_spec : forall p q, (p < D)%nat -> (q < D)%nat -> keep p q = false -> (E p - E q) * inv (E p - E q) == 1)
+         (kept_equal : forall p q, (p < D)%nat -> (q < D)%nat -> keep p q = true -> E p == E q)
+         (c : list R0),
+    let BAs := series_BlockAlg D k blk keep cm keep_sym keep_blk cm_blk in
+    let BAt := series_BlockAlg D k blk keep cm keep_sym keep_blk cm_blk in
+    forall (gflag gflag' : string -> bool)
+           (rflag : string -> T D k R0 -> T D k R0) (fenv : string -> list (T D k R0) -> T D k R0)
+           (rflag' : string -> T D k R0 -> T D k R0) (fenv' : string -> list (T D k R0) -> T D k R0)
+           (sol : string -> T D k R0) (sol' : string -> T D k R0),
+    (forall y, fenv "solve_sylvester" (cons y nil) == SylvInst.sylv E inv y) ->
+    (forall y, fenv' "solve_sylvester" (cons y nil) == SylvInst.sylv E inv y) ->
+    solution (BA := BAs) gflag rflag fenv sol nonhermitian_alg ->
+    solution (BA := BAt) gflag' rflag' fenv' sol' nonhermitian_alg ->
+    Zc (BlockAlg := BAs) (sol "H") == SylvInst.H0 D k E ->
+    sol' "H" == pscale D k c (sol "H") ->
+    sol' "U" == pscale D k c (sol "U") /\ sol' "U†" == pscale D k c (sol "U†")
+    /\ sol' "H_tilde" == pscale D k c (sol "H_tilde").
+Proof.
+  intros D k R0 r0 r1 add mul sub opp req Ro Rg CS blk keep cm keep_sym keep_refl keep_blk cm_blk E inv inv_spec kept_equal c BAs BAt gflag gflag' rflag fenv rflag' fenv' sol sol' Hfe Hfe' Hsol Hsol' Hz Hin.
+  exact (scale_nh D k blk keep cm keep_sym keep_refl keep_blk cm_blk E inv inv_spec kept_equal c gflag gflag' rflag fenv rflag' fenv' Hfe Hfe' sol sol' Hsol Hsol' Hz Hin).
+Qed.
+Print Assumptions C13_scale_nh_partial.
+
+(** permutation of the parameters *)
+Theorem C13_permute_nh_partial :
+  forall (D k : nat) (R0 : Type) (r0 r1 : R0) (add mul sub : R0 -> R0 -> R0) (opp : R0 -> R0) (req : R0 -> R0 -> Prop)
+         (Ro : @Ring_ops R0 r0 r1 add mul sub opp req) (Rg : @Ring R0 r0 r1 add mul sub opp req Ro) (CS : CStar R0)
+         (blk : nat -> nat) (keep : nat -> nat -> bool) (cm : nat -> bool)
+         (keep_sym : forall p q, keep p q = keep q p) (keep_refl : forall p, keep p p = true)
+         (keep_blk : forall p q, keep p q = true -> blk p = blk q) (cm_blk : forall p q, blk p = blk q -> cm p = cm q)
+         (E : nat -> R0) (inv : R0 -> R0)
+         (inv_spec : forall p q, (p < D)%nat -> (q < D)%nat -> keep p q = false -> (E p - E q) * inv (E p - E q) == 1)
+         (kept_equal : forall p q, (p < D)%nat -> (q < D)%nat -> keep p q = true -> E p == E q)
+         (sg sg' : list nat) (sg_len : List.length sg = k) (sg_len' : List.length sg' = k)
+         (sg_inv : List.map (fun j => List.nth j sg k) sg' = List.seq 0 k)
+         (sg_inv' : List.map (fun j => List.nth j sg' k) sg = List.seq 0 k),
+    let BAs := series_BlockAlg D k blk keep cm keep_sym keep_blk cm_blk in
+    let BAt := series_BlockAlg D k blk keep cm keep_sym keep_blk cm_blk in
+    forall (gflag gflag' : string -> bool)
+           (rflag : string -> T D k R0 -> T D k R0) (fenv : string -> list (T D k R0) -> T D k R0)
+           (rflag' : string -> T D k R0 -> T D k R0) (fenv' : string -> list (T D k R0) -> T D k R0)
+           (sol : string -> T D k R0) (sol' : string -> T D k R0),
+    (forall y, fenv "solve_sylvester" (cons y nil) == SylvInst.sylv E inv y) ->
+    (forall y, fenv' "solve_sylvester" (cons y nil) == SylvInst.sylv E inv y) ->
+    solution (BA := BAs) gflag rflag fenv sol nonhermitian_alg ->
+    solution (BA := BAt) gflag' rflag' fenv' sol' nonhermitian_alg ->
+    Zc (BlockAlg := BAs) (sol "H") == SylvInst.H0 D k E ->
+    sol' "H" == pull D k (pm sg) (sol "H") ->
+    sol' "U" == pull D k (pm sg) (sol "U") /\ sol' "U†" == pull D k (pm sg) (sol "U†")
+    /\ sol' "H_tilde" == pull D k (pm sg) (sol "H_tilde").
+Proof.
+  intros D k R0 r0 r1 add mul sub opp req Ro Rg CS blk keep cm keep_sym keep_refl keep_blk cm_blk E inv inv_spec kept_equal sg sg' sg_len sg_len' sg_inv sg_inv' BAs BAt gflag gflag' rflag fenv rflag' fenv' sol sol' Hfe Hfe' Hsol Hsol' Hz Hin.
+  exact (pull_nh D k blk keep cm keep_sym keep_refl keep_blk cm_blk E inv inv_spec kept_equal (pm sg) (pm sg') (pm_len k sg sg_len) (pm_len' k sg' sg_len') (pm_gf k sg sg' sg_len sg_inv) (pm_fg k sg sg' sg_len' sg_inv') (pm_padd k sg) (pm_deg k sg sg' sg_len sg_len' sg_inv') gflag gflag' rflag fenv rflag' fenv' Hfe Hfe' sol sol' Hsol Hsol' Hz Hin).
+Qed.
+Print Assumptions C13_permute_nh_partial.
+
+(** a vanishing perturbation added as new first parameter *)
+Theorem C13_vanishing_nh_partial :
+  forall (D k : nat) (R0 : Type) (r0 r1 : R0) (add mul sub : R0 -> R0 -> R0) (opp : R0 -> R0) (req : R0 -> R0 -> Prop)
+         (Ro : @Ring_ops R0 r0 r1 add mul sub opp req) (Rg : @Ring R0 r0 r1 add mul sub opp req Ro) (CS : CStar R0)
+         (blk : nat -> nat) (keep : nat -> nat -> bool) (cm : nat -> bool)
+         (keep_sym : forall p q, keep p q = keep q p) (keep_refl : forall p, keep p p = true)
+         (keep_blk : forall p q, keep p q = true -> blk p = blk q) (cm_blk : forall p q, blk p = blk q -> cm p = cm q)
+         (E : nat -> R0) (inv : R0 -> R0)
+         (inv_spec : forall p q, (p < D)%nat -> (q < D)%nat -> keep p q = false -> (E p - E q) * inv (E p - E q) == 1)
+         (kept_equal : forall p q, (p < D)%nat -> (q < D)%nat -> keep p q = true -> E p == E q),
+    let BAs := series_BlockAlg D k blk keep cm keep_sym keep_blk cm_blk in
+    let BAt := series_BlockAlg D (S k) blk keep cm keep_sym keep_blk cm_blk in
+    forall (gflag gflag' : string -> bool)
+           (rflag : string -> T D k R0 -> T D k R0) (fenv : string -> list (T D k R0) -> T D k R0)
+           (rflag' : string -> T D (S k) R0 -> T D (S k) R0) (fenv' : string -> list (T D (S k) R0) -> T D (S k) R0)
+           (sol : string -> T D k R0) (sol' : string -> T D (S k) R0),
+    (forall y, fenv "solve_sylvester" (cons y nil) == SylvInst.sylv E inv y) ->
+    (forall y, fenv' "solve_sylvester" (cons y nil) == SylvInst.sylv E inv y) ->
+    solution (BA := BAs) gflag rflag fenv sol nonhermitian_alg ->
+    solution (BA := BAt) gflag' rflag' fenv' sol' nonhermitian_alg ->
+    Zc (BlockAlg := BAs) (sol "H") == SylvInst.H0 D k E ->
+    sol' "H" == vanish D k (sol "H") ->
+    sol' "U" == vanish D k (sol "U") /\ sol' "U†" == vanish D k (sol "U†")
+    /\ sol' "H_tilde" == vanish D k (sol "H_tilde").
+Proof.
+  intros D k R0 r0 r1 add mul sub opp req Ro Rg CS blk keep cm keep_sym keep_refl keep_blk cm_blk E inv inv_spec kept_equal BAs BAt gflag gflag' rflag fenv rflag' fenv' sol sol' Hfe Hfe' Hsol Hsol' Hz Hin.
+  exact (vanish_nh D k blk keep cm keep_sym keep_refl keep_blk cm_blk E inv inv_spec kept_equal gflag gflag' rflag fenv rflag' fenv' Hfe Hfe' sol sol' Hsol Hsol' Hz Hin).
+Qed.
+Print Assumptions C13_vanishing_nh_partial.
+
+(** the first two of k+2 parameters given the same name *)
+Theorem C13_merge_nh_partial :
+  forall (D k : nat) (R0 : Type) (r0 r1 : R0) (add mul sub : R0 -> R0 -> R0) (opp : R0 -> R0) (req : R0 -> R0 -> Prop)
+         (Ro : @Ring_ops R0 r0 r1 add mul sub opp req) (Rg : @Ring R0 r0 r1 add mul sub opp req Ro) (CS : CStar R0)
+         (blk : nat -> nat) (keep : nat -> nat -> bool) (cm : nat -> bool)
+         (keep_sym : forall p q, keep p q = keep q p) (keep_refl : forall p, keep p p = true)
+         (keep_blk : forall p q, keep p q = true -> blk p = blk q) (cm_blk : forall p q, blk p = blk q -> cm p = cm q)
+         (E : nat -> R0) (inv : R0 -> R0)
+         (inv_spec : forall p q, (p < D)%nat -> (q < D)%nat -> keep p q = false -> (E p - E q) * inv (E p - E q) == 1)
+         (kept_equal : forall p q, (p < D)%nat -> (q < D)%nat -> keep p q = true -> E p == E q),
+    let BAs := series_BlockAlg D (S (S k)) blk keep cm keep_sym keep_blk cm_blk in
+    let BAt := series_BlockAlg D (S k) blk keep cm keep_sym keep_blk cm_blk in
+    forall (gflag gflag' : string -> bool)
+           (rflag : string -> T D (S (S k)) R0 -> T D (S (S k)) R0) (fenv : string -> list (T D (S (S k)) R0) -> T D (S (S k)) R0)
+           (rflag' : string -> T D (S k) R0 -> T D (S k) R0) (fenv' : string -> list (T D (S k) R0) -> T D (S k) R0)
+           (sol : string -> T D (S (S k)) R0) (sol' : string -> T D (S k) R0),
+    (forall y, fenv "solve_sylvester" (cons y nil) == SylvInst.sylv E inv y) ->
+    (forall y, fenv' "solve_sylvester" (cons y nil) == SylvInst.sylv E inv y) ->
+    solution (BA := BAs) gflag rflag fenv sol nonhermitian_alg ->
+    solution (BA := BAt) gflag' rflag' fenv' sol' nonhermitian_alg ->
+    Zc (BlockAlg := BAs) (sol "H") == SylvInst.H0 D (S (S k)) E ->
+    sol' "H" == push D (S k) (S (S k)) mrg_fib (sol "H") ->
+    sol' "U" == push D (S k) (S (S k)) mrg_fib (sol "U") /\ sol' "U†" == push D (S k) (S (S k)) mrg_fib (sol "U†")
+    /\ sol' "H_tilde" == push D (S k) (S (S k)) mrg_fib (sol "H_tilde").
+Proof.
+  intros D k R0 r0 r1 add mul sub opp req Ro Rg CS blk keep cm keep_sym keep_refl keep_blk cm_blk E inv inv_spec kept_equal BAs BAt gflag gflag' rflag fenv rflag' fenv' sol sol' Hfe Hfe' Hsol Hsol' Hz Hin.
+  exact (push_nh (S (S k)) D (S k) blk keep cm keep_sym keep_refl keep_blk cm_blk E inv inv_spec kept_equal mrg mrg_fib (fun n a L => mrg_fib_spec k n a L) (fun n _ => mrg_fib_nodup n) (mrg_len k) (mrg_padd k) (mrg_zero k) (mrg_deg k) gflag gflag' rflag fenv rflag' fenv' Hfe Hfe' sol sol' Hsol Hsol' Hz Hin).
+Qed.
+Print Assumptions C13_merge_nh_partial.
+
+(** lambda -> lambda^p in the first parameter *)
+Theorem C13_power_nh_partial :
+  forall (D k : nat) (R0 : Type) (r0 r1 : R0) (add mul sub : R0 -> R0 -> R0) (opp : R0 -> R0) (req : R0 -> R0 -> Prop)
+         (Ro : @Ring_ops R0 r0 r1 add mul sub opp req) (Rg : @Ring R0 r0 r1 add mul sub opp req Ro) (CS : CStar R0)
+         (blk : nat -> nat) (keep : nat -> nat -> bool) (cm : nat -> bool)
+         (keep_sym : forall p q, keep p q = keep q p) (keep_refl : forall p, keep p p = true)
+         (keep_blk : forall p q, keep p q = true -> blk p = blk q) (cm_blk : forall p q, blk p = blk q -> cm p = cm q)
+         (E : nat -> R0) (inv : R0 -> R0)
+         (inv_spec : forall p q, (p < D)%nat -> (q < D)%nat -> keep p q = false -> (E p - E q) * inv (E p - E q) == 1)
+         (kept_equal : forall p q, (p < D)%nat -> (q < D)%nat -> keep p q = true -> E p == E q)
+         (p : nat) (p_pos : (0 < p)%nat),
+    let BAs := series_BlockAlg D k blk keep cm keep_sym keep_blk cm_blk in
+    let BAt := series_BlockAlg D k blk keep cm keep_sym keep_blk cm_blk in
+    forall (gflag gflag' : string -> bool)
+           (rflag : string -> T D k R0 -> T D k R0) (fenv : string -> list (T D k R0) -> T D k R0)
+           (rflag' : string -> T D k R0 -> T D k R0) (fenv' : string -> list (T D k R0) -> T D k R0)
+           (sol : string -> T D k R0) (sol' : string -> T D k R0),
+    (forall y, fenv "solve_sylvester" (cons y nil) == SylvInst.sylv E inv y) ->
+    (forall y, fenv' "solve_sylvester" (cons y nil) == SylvInst.sylv E inv y) ->
+    solution (BA := BAs) gflag rflag fenv sol nonhermitian_alg ->
+    solution (BA := BAt) gflag' rflag' fenv' sol' nonhermitian_alg ->
+    Zc (BlockAlg := BAs) (sol "H") == SylvInst.H0 D k E ->
+    sol' "H" == push D k k (pw_fib p) (sol "H") ->
+    sol' "U" == push D k k (pw_fib p) (sol "U") /\ sol' "U†" == push D k k (pw_fib p) (sol "U†")
+    /\ sol' "H_tilde" == push D k k (pw_fib p) (sol "H_tilde").
+Proof.
+  intros D k R0 r0 r1 add mul sub opp req Ro Rg CS blk keep cm keep_sym keep_refl keep_blk cm_blk E inv inv_spec kept_equal p p_pos BAs BAt gflag gflag' rflag fenv rflag' fenv' sol sol' Hfe Hfe' Hsol Hsol' Hz Hin.
+  exact (push_nh k D k blk keep cm keep_sym keep_refl keep_blk cm_blk E inv inv_spec kept_equal (pw p) (pw_fib p) (fun n a L => pw_fib_spec p p_pos k n a L) (fun n _ => pw_fib_nodup p n) (pw_len p k) (fun a b La Lb => pw_padd p p_pos a b (eq_trans La (eq_sym Lb))) (pw_zero p p_pos k) (fun a _ => pw_deg p p_pos a) gflag gflag' rflag fenv rflag' fenv' Hfe Hfe' sol sol' Hsol Hsol' Hz Hin).
+Qed.
+Print Assumptions C13_power_nh_partial.
+
+(** non-vacuity: the maps are [SGHom]s on the example instance; the scalars may be non-real only over a
+    ring with non-trivial conjugation, here the rational example with c = (2, 1/2) *)
+Example C13_nh_applies :
+  SGHom (BA := ex_BA) (BA' := ex_BA) (pscale 3 2 (cons (QArith_base.Qmake 2 1) (cons (QArith_base.Qmake 1 2) nil)))
+  /\ SGHom (BA := series_BlockAlg 3 2 ex_blk ex_keep ex_cm ex_keep_sym ex_keep_blk ex_cm_blk)
+           (BA' := series_BlockAlg 3 1 ex_blk ex_keep ex_cm ex_keep_sym ex_keep_blk ex_cm_blk) (push 3 1 2 mrg_fib).
+Proof.
+  split.
+  - exact (pscale_SGHom 3 2 ex_blk ex_keep ex_cm ex_keep_sym ex_keep_blk ex_cm_blk _).
+  - apply LAHom_SGHom.
+    exact (push_LAHom 3 1 2 ex_blk ex_keep ex_cm ex_keep_sym ex_keep_blk ex_cm_blk mrg mrg_fib
+             (fun n a L => mrg_fib_spec 0 n a L) (fun n _ => mrg_fib_nodup n) (mrg_len 0) (mrg_padd 0) (mrg_zero 0) (mrg_deg 0)).
+Qed.
